@@ -103,6 +103,25 @@ def generate(rng, tier):
             xmin, xmax, ymin, ymax = c["rect"]; w = xmax - xmin; h = ymax - ymin; u = max(w, h, F(1))
             prev = rng.choice([[xmin, xmax + u, ymin, ymax + u], [xmin - u, xmax, ymin - u, ymax], [xmin, xmin + w / 2, ymin, ymin + h / 2], [xmin + u, xmax + 2 * u, ymin, ymax]])
             cases.append(dict(c, prev_rect=prev, style=0, family=c["family"] + "/bounds-edited-in-place"))
+    # an earlier call in the same process on different numbers with equal hashes (hash(-1) == hash(-2), ints and floats alike; hash(n) ==
+    # hash(n + 2^61 - 1)): the answer belongs to the arguments of this call
+    P = 2**61 - 1
+    for _ in range(40 if tier == "quick" else 1200):
+        kind = rng.choice(["neg", "neg", "neg", "mod"])
+        lo2, hi2 = F(rng.choice([-1, -2, -4, 0])), F(rng.randint(2, 6))
+        if kind == "neg":
+            a = F(rng.choice([-1, -2])); hi = F(rng.randint(2, 6))
+            t1, t2 = F(rng.randint(0, 2)), F(rng.randint(0, 2))
+            swap = lambda v: F(-2) if v == -1 else F(-1) if v == -2 else v
+            if rng.random() < 0.5: rect = [a, hi, lo2, hi2]; seg = [F(-5), t1, F(5), t2]
+            else: rect = [lo2, hi2, a, hi]; seg = [t1, F(-5), t2, F(5)]
+            if rng.random() < 0.3: seg = seg[2:] + seg[:2]
+            pre = ([swap(v) for v in seg], [swap(v) for v in rect]); exact = rng.random() < 0.5
+        else:
+            k = rng.randint(1, 9); big = rng.random() < 0.5
+            rect = [F(0), F(k + P if big else k), lo2, hi2]; seg = [F(-3), F(1), F(k + 7), F(1)]
+            pre = (list(seg), [F(0), F(k if big else k + P), lo2, hi2]); exact = True
+        cases.append({"seg": seg, "rect": rect, "exact": exact, "pre": pre, "style": rng.choice([0, 2]), "family": "after-a-call-on-hash-equal-numbers/" + kind})
     return cases
 
 def _passes(seg, rect):
@@ -134,6 +153,10 @@ def run_impl(c):
     style = (hash((str(c["seg"]), str(c["rect"]))) % 3) if "style" not in c else c["style"]
     mk = (lambda a, b: (a, b)) if style == 2 else (lambda a, b: [a, b])
     segment = mk(mk(x1, y1), mk(x2, y2)); bounds = mk(mk(xmin, ymin), mk(xmax, ymax))
+    if "pre" in c:
+        ps, pr = c["pre"]; ps = [conv(v) for v in ps]; pr = [conv(v) for v in pr]
+        try: plot_utils.clip_segment(mk(mk(ps[0], ps[1]), mk(ps[2], ps[3])), mk(mk(pr[0], pr[2]), mk(pr[1], pr[3])))
+        except Exception: pass
     if "prev_rect" in c:
         # the application keeps one bounds list and edits it in place (the page was resized): the same segment was clipped against the
         # old values a moment ago; the answer now is the one for the values the list holds now
